@@ -14,3 +14,9 @@ def fill(check, na):
           "association keep the C01/C02 guarantees; after heal and quiescence every channel carries fresh traffic again.",
           "Same rig as C01. maxPacketLifeTime is driven by the virtual clock. Post-heal obligation starts at the first quiescence after heal.",
           "DESIGN.md 3/C06")
+    check("C13", "per-object lifecycle automaton + datachannel-event matcher + bufferedAmount shadow evaluated at every event/API call, close-completion and id-reuse obligations at quiescence; generated create/send/close programs under seeded fault schedules in virtual time",
+          "Held on the executions produced: every readyState sample, every datachannel/open/close/bufferedamountlow event and every "
+          "bufferedAmount reading of every channel object is checked online against a small automaton and a byte-count shadow; at "
+          "post-heal quiescence close() must have closed both ends and freed the id. Three mechanisms are listed known findings.",
+          "Same rig as C01. bufferedAmount equality is evaluated while the channel is open and no hand-over is suspended (relay mode). Known findings are suppressed by mechanism classifiers over the witness, see known_findings.json.",
+          "DESIGN.md 3/C13")
